@@ -99,3 +99,18 @@ def show(I: Interp, n: Node, d=3) -> str:
 
 def chain_str(e) -> str:
     return " > ".join(e.funcs()[-4:])
+
+
+CASTS = {"numpy.asarray", "numpy.asanyarray", "numpy.array", "numpy.float64", "numpy.float32", "numpy.copy",
+         "numpy.ascontiguousarray", "numpy.atleast_1d"}
+
+
+def strip_cast(n: Node) -> Node:
+    """look through value-preserving casts / copies"""
+    while True:
+        if n.op == "Call" and n.args and n.args[0].op == "Ext" and n.args[0].attr in CASTS and len(n.args) >= 2:
+            n = n.args[1]
+        elif n.op == "MCall" and n.attr[0] in ("copy", "astype") and n.args:
+            n = n.args[0]
+        else:
+            return n
